@@ -300,6 +300,59 @@ theorem queue_lowest_pattern_run_partial (v : Variant) (cfg : Cfg) (src : Bytes)
   · simp [initSt] at hq
   · exact ha
 
+/-! ## What the loop guarantees for ARBITRARY arrival order -/
+
+/-- **queue_batches_sorted** (unconditional).  For every configuration, source and match sequence the
+emission is the concatenation of flush batches (one per `flushReady` call plus the final drain), and
+every batch is strictly increasing in `(name_range.end, name_range.start)`. -/
+theorem queue_batches_sorted (v : Variant) (cfg : Cfg) (src : Bytes) (ms : List Mat) :
+    runTags v cfg src ms = (runB v cfg src ms (initSt src)).flatten ∧
+    ∀ b ∈ runB v cfg src ms (initSt src), b.Pairwise TagLt :=
+  ⟨run_eq_flatten v cfg src ms (initSt src),
+   runB_sorted v cfg src ms (initSt src) (by simp [initSt, QSorted])⟩
+
+/-- **queue_emitted_are_arrivals** (unconditional).  Every emitted entry is one of the entries the
+matches inserted (tag and pattern index unchanged): the queue never invents or alters a tag. -/
+theorem queue_emitted_are_arrivals (v : Variant) (cfg : Cfg) (src : Bytes) (ms : List Mat) :
+    runTags v cfg src ms = (runP v cfg src ms (initSt src)).map Prod.fst ∧
+    ∀ e ∈ runP v cfg src ms (initSt src), e ∈ arrivals v cfg src ms (initSt src) := by
+  refine ⟨run_eq_P v cfg src ms (initSt src), fun e he => ?_⟩
+  rcases runP_mem v cfg src ms (initSt src) e he with hq | ha
+  · simp [initSt] at hq
+  · exact ha
+
+/-- **queue_sorted_of_no_late.**  The exact condition the pop rule needs: if no match arrives late
+(`noLate`: every inserted entry's key exceeds the key of every entry popped before it — a
+decidable property of the run, measured on every real run as `late=`), the whole emission is
+strictly increasing (sorted, one tag per name range).  Together with `queue_batches_sorted`: the
+only way order or dedup can fail is a late arrival, which then starts a new increasing run. -/
+theorem queue_sorted_of_no_late (v : Variant) (cfg : Cfg) (src : Bytes) (ms : List Mat)
+    (h : noLate v cfg src none ms (initSt src) = true) : (runTags v cfg src ms).Pairwise TagLt :=
+  (run_sorted_noLate v cfg src ms (initSt src) none (by simp [initSt, QSorted]) (by simp [initSt]) h).1
+
+/-- **no_late_of_arrival_order.**  The name-based hypothesis of the `_partial` theorems implies
+`noLate`; so `queue_sorted_dedup_partial`'s order claim is a corollary of `queue_sorted_of_no_late`. -/
+theorem no_late_of_arrival_order (v : Variant) (cfg : Cfg) (src : Bytes) (ms : List Mat)
+    (h : (names cfg ms).Pairwise (fun a b => a.s ≤ b.e)) : noLate v cfg src none ms (initSt src) = true :=
+  noLate_of_arrival v cfg src ms (initSt src) none (by simp [initSt, QSorted]) (by simp [initSt]) h
+    (by intro b hb; cases hb)
+
+example (v : Variant) (cfg : Cfg) (src : Bytes) (ms : List Mat)
+    (h : (names cfg ms).Pairwise (fun a b => a.s ≤ b.e)) : (runTags v cfg src ms).Pairwise TagLt :=
+  queue_sorted_of_no_late v cfg src ms (no_late_of_arrival_order v cfg src ms h)
+
+/-- Witness that the unconditional GLOBAL statement is false (the real stream of finding
+C18-late-match-duplicate: `x = f(1) + g(2) + 3;`, patterns 0 = definition finishing at the far `3`,
+1 = call, 2 = identifier): `x` [0,1) leaves with pattern 2, is flushed when `g` arrives, and the
+pattern-0 match for the same node arrives late — emitted again, after `f`, with the lower index. -/
+example : (runP {} wcfg3 [] [wmp 2 0 1, wmp 1 4 5, wmp 2 4 5, wmp 1 11 12, wmp 2 11 12, wmp 0 0 1] (initSt [])).map
+      (fun e => (e.1.name, e.2)) = [(⟨0, 1⟩, 2), (⟨4, 5⟩, 1), (⟨0, 1⟩, 0), (⟨11, 12⟩, 1)] ∧
+    noLate {} wcfg3 [] none [wmp 2 0 1, wmp 1 4 5, wmp 2 4 5, wmp 1 11 12, wmp 2 11 12, wmp 0 0 1] (initSt []) = false := by
+  constructor <;>
+  simp [noLate, newBound, bLt, inserted, runP, initSt, wcfg3, wcfg, wm, wmp, flushReadyP, ready, processMatch, processTag, tagOf,
+    capLoop, Cfg.lookup, qInsert, key, keyLt, drainP, cacheStep, utf16LenV, utf16Len, lossyUnits, slice, lineRange, docsOf,
+    joinDocs, Tag.isIgnored, usizeMax, isLocal, Option.filter, scan, maxLineLen]
+
 /-! ## Local scopes -/
 
 /-- **local_filter_spec.**  For every name, range and scope stack, the port of the
@@ -321,5 +374,64 @@ theorem local_filter_iff (name : Bytes) (r : R) (scopes : Scopes) :
 from a non-inheriting one (kept). -/
 example : isLocal [120] ⟨5, 6⟩ [⟨true, ⟨4, 8⟩, []⟩, ⟨false, ⟨0, 10⟩, [[120]]⟩] = true ∧
           isLocal [120] ⟨5, 6⟩ [⟨false, ⟨4, 8⟩, []⟩, ⟨false, ⟨0, 10⟩, [[120]]⟩] = false := by decide
+
+/-- **record_def_spec.**  Recording a `@local.definition`: either no scope contains its range and
+nothing changes, or the stack splits as `pre ++ s :: post` where no scope of `pre` (the more recently
+pushed ones) contains the range, `s` does, and exactly `s` gains the definition (at the end of its
+list).  I.e. "the most recently pushed scope that contains it, and nowhere else". -/
+theorem record_def_spec (name : Bytes) (r : R) (scopes : Scopes) :
+    ((∀ s ∈ scopes, s.contains r = false) ∧ addDef name r scopes = scopes) ∨
+    ∃ pre s post, scopes = pre ++ s :: post ∧ (∀ x ∈ pre, x.contains r = false) ∧ s.contains r = true ∧
+      addDef name r scopes = pre ++ { s with defs := s.defs ++ [name] } :: post :=
+  addDef_eq name r scopes
+
+/-- **record_scopes_shape.**  Processing the captures of a locals-pattern match (`processLocal` =
+fold of `recordStep`: push a scope for `@local.scope`, `addDef` for `@local.definition`, nothing
+otherwise) never drops, reorders or resizes a scope: the (range, inherits) list of the new stack is
+the `@local.scope` captures of this match, most recent first, in front of the old list.  (The code
+never pops a scope; enclosure is decided by range containment alone — `local_filter_spec`.) -/
+theorem record_scopes_shape (cfg : Cfg) (src : Bytes) (pi : PatInfo) (caps : List Cap) (sc : Scopes) :
+    (processLocal cfg src pi caps sc).map scopeShape =
+      ((caps.filter (fun c => some c.idx == cfg.scopeIdx)).reverse.map
+          (fun c => ((⟨c.sb, c.eb⟩ : R), pi.inherits))) ++ sc.map scopeShape :=
+  processLocal_shape cfg src pi caps sc
+
+/-! ## `utf16_len` over the repaired `LossyUtf8` (the code as committed) -/
+
+/-- **utf16_len_fixed_eq_spec.**  For EVERY byte string the port of `utf16_len` over the repaired
+`LossyUtf8` equals the spec (`from_utf8_lossy` reading): one U+FFFD per maximal ill-formed subpart,
+including a final one and a truncated final sequence. -/
+theorem utf16_len_fixed_eq_spec (b : Bytes) : utf16LenF b = utf16Spec b := by
+  unfold utf16LenF; rw [lossyF_eq_spec]; simp
+
+/-- **utf16_len_append** (full strength, for the repaired code): additive at every character
+boundary, whatever follows.  (`utf16_len_append_partial` is what held for the code pinned before the
+repair; its counterexamples no longer apply.) -/
+theorem utf16_len_append (a b : Bytes) (ha : validUtf8 a = true) :
+    utf16LenF (a ++ b) = utf16LenF a + utf16LenF b := by
+  simp only [utf16_len_fixed_eq_spec]; exact utf16_spec_append a b ha
+
+/-- **cache_correct_utf16_fixed.**  `cache_correct` for the repaired code: names that start and end at
+character boundaries of their row get `utf16Spec(prefix) .. utf16Spec(prefix ++ name)` in any
+processing order — no assumption on the rest of the row (it may be ill-formed). -/
+theorem cache_correct_utf16_fixed (src : Bytes) (limit : Nat) (rowLs : Nat → Nat) (os : List Occ)
+    (hos : ∀ o ∈ os, o.ls = rowLs o.row ∧ o.ls ≤ o.name.s ∧ o.name.s ≤ o.name.e ∧
+             validUtf8 (slice src o.ls o.name.s) = true ∧ validUtf8 (slice src o.ls o.name.e) = true) :
+    (cacheFold utf16LenF src limit none os).map (·.u16) =
+      os.map (fun o => (⟨utf16Spec (slice src o.ls o.name.s), utf16Spec (slice src o.ls o.name.e)⟩ : R)) := by
+  have cut : ∀ ls b c, ls ≤ b → b ≤ c → validUtf8 (slice src ls b) = true → CutOK utf16LenF src ls b c := by
+    intro ls b c h1 h2 hb
+    unfold CutOK
+    rw [slice_append src ls b c h1 h2, utf16_len_append _ _ hb]
+  have h := cache_correct utf16LenF src (fun _ _ => True) limit rowLs os
+    (fun o ho => by
+      obtain ⟨h0, h1, h2, h3, h4⟩ := hos o ho
+      exact ⟨h0, h1, h2, trivial, cut _ _ _ h1 h2 h3, fun c hc _ => cut _ _ _ (by omega) hc h4⟩)
+  have h' := congrArg (List.map Prod.fst) h
+  simp only [List.map_map] at h'
+  rw [show (fun co : CacheOut => co.u16) = Prod.fst ∘ (fun co => (co.u16, co.line)) from rfl, h']
+  apply List.map_congr_left
+  intro o _
+  simp [utf16_len_fixed_eq_spec]
 
 end TsVerif.C18
